@@ -383,6 +383,23 @@ def replay_source(chk, h, threads):
       chk.violation(f'source:raised:{type(err).__name__}:threads{threads}{tag}', f'len={h["len"]} bad={sorted(bad)}: {_chain(err)}', ctx)
     elif (out != want) if threads <= 1 else (sorted(out) != want):
       chk.violation(f'source:elements:threads{threads}{tag}', f'len={h["len"]} bad={sorted(bad)}: got {out} want {want}', ctx)
+  # error skipping survives a restore: the source configured to skip unreadable positions, iterated part-way, rebuilt
+  # from the captured state, keeps skipping (nothing after a later unreadable position is lost, nothing is raised)
+  readable = [j for j in range(h['len']) if j not in bad]
+  for cut in range(len(readable) + 1):
+    data = c09.BadSeq(h['len'], bad, sliceable=h.get('sliceable', True))
+    ds = io.SequenceDataSource(data, ignore_error=True)
+    ctx = dict(kind='source-skip-restore', history=h, cut=cut)
+    try:
+      it = ds.iterate()
+      before = [next(it) for _ in range(cut)]
+      after = list(it.from_state(it.state))
+    except Exception as e:  # pylint: disable=broad-exception-caught
+      chk.violation(f'source:restore:raised:{type(e).__name__}', f'len={h["len"]} bad={sorted(bad)} restored after {cut} elements: {e!r}', ctx)
+      break
+    if before + after != readable:
+      chk.violation('source:restore:elements', f'len={h["len"]} bad={sorted(bad)} restored after {cut} elements: {before} + {after}, readable {readable}', ctx)
+      break
   return True
 
 
